@@ -364,8 +364,8 @@ fn check_list(items: &[T], tail: &Option<T>, index: usize) -> Vec<Violation> {
 
 pub fn run(ctx: &mut Ctx) {
     let quick = ctx.quick();
-    ctx.set("rule", json!("E3: (a) every ordered pair of the term universe (every literal kind, two variables and second constructions of them, [], proper / improper / nested lists, five compound kinds): LTerm == equals structural equality with variable identity, is symmetric, and equal terms hash identically under SipHash and under a hasher that records write boundaries; comparisons with Rust literals agree. (b) every element sequence of length 0..3 (thorough: 0..4) over 11 element values (incl. [], nested lists, an improper pair, a compound) with no tail and 4 improper tails: from_vec / from_array / collect / improper_from_vec / improper_from_array, iter / IntoIterator (fused), Index, IndexMut and iter_mut (right element, value semantics), head / tail, is_list / is_empty / is_improper, contains, extend, Display against the Vec model with the improper tail as final element. distinct_nontrivial = equal pairs of distinct constructions + lists."));
-    let u = term_universe(quick);
+    ctx.set("rule", json!("E3: (a) every ordered pair of the term universe (every literal kind, two variables and second constructions of them, [], proper / improper / nested lists, five compound kinds): LTerm == equals structural equality with variable identity, is symmetric, and equal terms hash identically under SipHash and under a hasher that records write boundaries; comparisons with Rust literals agree. (b) every element sequence of length 0..4 (thorough: 0..5) over 11 element values (incl. [], nested lists, an improper pair, a compound) with no tail and 4 improper tails: from_vec / from_array / collect / improper_from_vec / improper_from_array, iter / IntoIterator (fused), Index, IndexMut and iter_mut (right element, value semantics), head / tail, is_list / is_empty / is_improper, contains, extend, Display against the Vec model with the improper tail as final element. distinct_nontrivial = equal pairs of distinct constructions + lists."));
+    let u = term_universe(false);
     let rows: Vec<usize> = match &ctx.replay {
         Some(r) if r.family == "c21-eq" => vec![r.index],
         Some(_) => vec![],
@@ -386,10 +386,10 @@ pub fn run(ctx: &mut Ctx) {
     // lists
     let ev = elem_values();
     let mut lists: Vec<(Vec<T>, Option<T>)> = vec![];
-    for n in 0..=(if quick { 3 } else { 4 }) {
+    for n in 0..=(if quick { 4 } else { 5 }) {
         for items in crate::e4::product(&ev, n) {
             for t in tails() {
-                if n == 0 && t.is_some() && quick {
+                if false && n == 0 && t.is_some() && quick {
                     continue;
                 }
                 lists.push((items.clone(), t));
